@@ -290,8 +290,46 @@ static int smoke(int k)
   return ok;
 }
 
+// wide <kind> <l0> <l1> <l2> <l3>: a 64-bit (kind i64 / u64) or 32-bit (i32 / u32) integer given as 16-bit limbs, least
+// significant first, goes through a temporary Variant: reported type, decimal text (const and mutable accessor), the
+// 64-bit conversions and equality with a copy.  Values beyond TLC's 32-bit integers; judged by VariantWideTrace.
+static void put_limbs4(const char* name, unsigned long long v)
+{
+  j_arr_begin(name);
+  for(int k = 0; k < 4; ++k) j_arr_int((long long)((v >> (16 * k)) & 0xffff));
+  j_arr_end();
+}
+static void do_wide()
+{
+  const char* kind = tok_next();
+  char kd[8]; strncpy(kd, kind, 7); kd[7] = 0;
+  unsigned long long x = 0;
+  for(int k = 0; k < 4; ++k) x |= (unsigned long long)(tok_int() & 0xffff) << (16 * k);
+  Variant v;
+  if(!strcmp(kd, "i64")) v = (int64)x;
+  else if(!strcmp(kd, "u64")) v = (uint64)x;
+  else if(!strcmp(kd, "i32")) { v = (int)(uint32)x; x = (unsigned long long)(long long)(int)(uint32)x; }
+  else { v = (uint)(uint32)x; x = (uint32)x; }
+  const Variant& cv = v;
+  Variant c(v);
+  const char* ty = cv.getType() == Variant::int64Type ? "i64" : cv.getType() == Variant::uint64Type ? "u64" :
+                   cv.getType() == Variant::intType ? "i32" : cv.getType() == Variant::uintType ? "u32" : "other";
+  String txt = cv.toString();
+  int eq = (v == c) && !(v != c) && (c == v);
+  Variant t(c);
+  String mtxt = t.toString();          // the mutable accessor turns the copy into a string
+  int eq2 = (v == c) && t.getType() == Variant::stringType;
+  j_begin("wide"); j_str("kind", kd); put_limbs4("v", x); j_str("ty", ty);
+  j_bytes("txt", (const unsigned char*)(const char*)txt, (long)txt.length());
+  j_bytes("mtxt", (const unsigned char*)(const char*)mtxt, (long)mtxt.length());
+  put_limbs4("i64", (unsigned long long)cv.toInt64()); put_limbs4("u64", (unsigned long long)cv.toUInt64());
+  j_bool("eq", eq && eq2);
+  j_end();
+}
+
 void drv_apply(const char* op)
 {
+  if(!strcmp(op, "wide")) { do_wide(); return; }
   int i = (int)tok_int();
   int j = 0, r = 1;
   Lit* x = 0; unsigned char* key = 0; int keyn = 0;
